@@ -59,6 +59,7 @@ ALLOWED_AXIOMS = ()
 
 BASE = os.path.join(B.BUILD, 'C16', 'world')
 PKG = 'c16pkg'
+PKGB = 'c16pkgb'
 SENT = 'SENT'
 
 # ------------------------------------------------------------------ the directory tree
@@ -83,6 +84,11 @@ OUTSIDE = {
     PKG: None, PKG + '/__init__.py': 0, PKG + '/outside.txt': 7, PKG + '/static.gz': 6, PKG + '/index.html': 7,
 }
 
+# a second package with the SAME relative docroot 'static': some names shared with c16pkg (other content, other
+# sizes), some only here, most of c16pkg's missing
+PKGB_FILES = {'index.html': 6, 'file.txt': 4, 'file.txt.gz': 8, 'big.css': 9, 'only_b.txt': 5, 'sub': None,
+              'sub/index.html': 7, 'sub/x.css': 3, 'same.js': 7, 'same.js.gz': 5}
+
 # root key -> (is_package, spec handed to pyramid, package_name kw or None)
 ROOTS = {
     'fs': (False, BASE + '/root', None),
@@ -96,6 +102,8 @@ ROOTS = {
     'pkg-slash': (True, PKG + ':static/', None),
     'pkg-sub': (True, PKG + ':static/sub', None),
     'pkg-rel': (True, 'static', PKG),
+    'pkgb': (True, PKGB + ':static', None),
+    'pkgb-rel': (True, 'static', PKGB),
 }
 MOUNTS = ['route', 'catchall', 'view', 'subpath']
 ENC_SETS = [[], ['gzip'], ['gzip', 'br'], ['br', 'gzip'], ['gzip', 'compress', 'bzip2', 'xz', 'br']]
@@ -133,6 +141,9 @@ def _make_world():
         put(os.path.join(BASE, 'root'), rel, ROOT_FILES[rel], 'f')
     for rel in sorted(ROOT_FILES):
         put(os.path.join(BASE, PKG, 'static'), rel, ROOT_FILES[rel], 'p')
+    put(BASE, PKGB + '/__init__.py', 0, '')
+    for rel in sorted(PKGB_FILES):
+        put(os.path.join(BASE, PKGB, 'static'), rel, PKGB_FILES[rel], 'q')
 
 
 def _listing():
@@ -173,11 +184,12 @@ def setup(tier):
     from pyramid.request import Request
     from pyramid.httpexceptions import HTTPException
     __import__(PKG)
+    __import__(PKGB)
     _state.update(
         listing=_listing(),
         encmap=[[k, v] for k, v in mimetypes.encodings_map.items()],
         safe=webob.request.PATH_SAFE,
-        modpath=pkg_resources.get_provider(PKG).module_path,
+        modpath={k: pkg_resources.get_provider(k).module_path for k in (PKG, PKGB)},
         Request=Request, HTTPException=HTTPException,
         static_view=pyramid.static.static_view,
         secure=pyramid.static._secure_path,
@@ -323,7 +335,57 @@ def gen_case(rng):
             else:
                 pre['path'] = _gen_path(rng, mount)
             case['pre'].append(pre)
+    if rng.random() < 0.22:
+        _add_instances(rng, case)
     return case
+
+
+TWIN = {'pkg': ['pkgb', 'pkgb-rel', 'pkg', 'pkg-sub'], 'pkg-slash': ['pkgb', 'pkg'], 'pkg-rel': ['pkgb-rel', 'pkgb'],
+        'pkgb': ['pkg', 'pkg-rel', 'pkgb'], 'pkgb-rel': ['pkg-rel', 'pkg'], 'pkg-sub': ['pkg', 'pkgb'],
+        'fs': ['fs', 'fs-slash', 'fs-dots', 'fs-sub', 'pkg'], 'fs-slash': ['fs'], 'fs-dots': ['fs'], 'fs-up': ['fs'],
+        'fs-sub': ['fs'], 'fs-missing': ['fs'], 'fs-file': ['fs']}
+SHARED_NAMES = ['file.txt', 'index.html', 'big.css', 'same.js', 'sub/x.css', 'sub/', '', 'only_b.txt', 'only.txt',
+                'sub/index.html', 'noindex/only.txt']
+
+
+def _add_instances(rng, case):
+    """Two or three view instances in one process (same relative docroot in another package, the same docroot twice,
+    other encodings), the same names requested from each, interleaved."""
+    mount = case['mount']
+    case['insts'] = []
+    for _ in range(rng.choice([1, 1, 2])):
+        r = rng.random()
+        inst = {'root': rng.choice(TWIN[case['root']]), 'encs': list(case['encs']), 'index': case['index'],
+                'reload': case['reload']}
+        if r < 0.3:
+            inst['encs'] = rng.choice(ENC_SETS)
+        elif r < 0.4:
+            inst['reload'] = not case['reload']
+        case['insts'].append(inst)
+    n = len(case['insts']) + 1
+    if rng.random() < 0.7:                      # names that exist (differently) under several roots
+        rel = rng.choice(SHARED_NAMES)
+        if mount == 'subpath':
+            case['subpath'] = [x for x in rel.split('/') if x]
+            case['path'] = '/d/' if rel.endswith('/') or not rel else '/d'
+        else:
+            case['path'] = MOUNT_PREFIX[mount] + rel
+        if rng.random() < 0.5 and not case['encs']:
+            case['encs'] = rng.choice(ENC_SETS[1:])
+            case['ae'] = rng.choice(AE_VALUES[2:])
+    pre = []
+    for _ in range(rng.choice([1, 2, 2, 3, 4])):
+        q = {'path': case['path'], 'subpath': list(case['subpath']), 'qs': '', 'ae': case['ae'], 'inst': rng.randrange(n)}
+        if rng.random() < 0.2:
+            q['ae'] = rng.choice(AE_VALUES)
+        if rng.random() < 0.15:
+            if mount == 'subpath':
+                q['subpath'] = _gen_subpath(rng)
+            else:
+                q['path'] = _gen_path(rng, mount)
+        pre.append(q)
+    case['pre'] = pre
+    case['inst'] = rng.randrange(n)
 
 
 def _gen_subpath(rng):
@@ -409,10 +471,21 @@ def valid(case):
                 and all(isinstance(b, int) and 0 <= b < 256 for b in case['prefix'])
         if case['mount'] not in MOUNTS or case['root'] not in ROOTS:
             return False
-        if not isinstance(case['pre'], list) or len(case['pre']) > 3:
+        if not isinstance(case['pre'], list) or len(case['pre']) > 4:
             return False
-        if not all(set(r) == {'path', 'subpath', 'qs', 'ae'} and _valid_req(case['mount'], r) for r in case['pre']):
+        insts = case.get('insts', [])
+        if not isinstance(insts, list) or len(insts) > 2 or case.get('inst', 0) not in range(len(insts) + 1):
             return False
+        for i in insts:
+            if set(i) != set(INST_KEYS) or i['root'] not in ROOTS or not isinstance(i['reload'], bool) \
+                    or not isinstance(i['encs'], list) or not all(isinstance(e, str) and e for e in i['encs']) \
+                    or not isinstance(i['index'], str) or not i['index'] or '/' in i['index'] or i['index'] in ('.', '..'):
+                return False
+        for r in case['pre']:
+            if not set(r) <= {'path', 'subpath', 'qs', 'ae', 'inst'} or not {'path', 'subpath', 'qs', 'ae'} <= set(r):
+                return False
+            if r.get('inst', 0) not in range(len(insts) + 1) or not _valid_req(case['mount'], r):
+                return False
         if not _valid_req(case['mount'], case):
             return False
         if not isinstance(case['index'], str) or not case['index'] or '/' in case['index'] or case['index'] in ('.', '..'):
@@ -453,6 +526,29 @@ def _ae_oracle(ae):
     return _state['ae'][ae]
 
 
+def _root_pkg(root):
+    is_pkg, spec, pname = ROOTS[root]
+    if not is_pkg:
+        return PKG
+    return spec.split(':', 1)[0] if ':' in spec else pname
+
+
+INST_KEYS = ('root', 'encs', 'index', 'reload')
+
+
+def _insts(case):
+    """The view instances of a case: instance 0 is the case's own configuration, case['insts'] holds the others."""
+    out = [{k: case[k] for k in INST_KEYS}]
+    out += [dict(i) for i in case.get('insts', [])]
+    for i in out:
+        i['mount'] = case['mount']
+    return out
+
+
+def _inst_of(case, r):
+    return _insts(case)[r.get('inst', 0)]
+
+
 def _docroot(case):
     """What static_view keeps as self.docroot (resolve_asset_spec / StaticURLInfo.add are plain string surgery)."""
     is_pkg, spec, pname = ROOTS[case['root']]
@@ -468,14 +564,16 @@ def to_wire(case):
         setup('quick')
     if _is_utf8(case):
         return [1, bytes(case['prefix']), case['n']]
-    is_pkg, docroot = _docroot(case)
-    cfg = [MOUNTS.index(case['mount']), 'static', is_pkg, docroot, _state['modpath'], case['index'], list(case['encs']),
-           _state['encmap'], 'http://localhost', _state['safe'], case['reload']]
+    cfgs = []
+    for ic in _insts(case):
+        is_pkg, docroot = _docroot(ic)
+        cfgs.append([MOUNTS.index(ic['mount']), 'static', is_pkg, docroot, _state['modpath'][_root_pkg(ic['root'])],
+                     ic['index'], list(ic['encs']), _state['encmap'], 'http://localhost', _state['safe'], ic['reload']])
     reqs = []
     for r in _requests(case):
         truthy, ok = _ae_oracle(r['ae'])
-        reqs.append([r['path'].encode('latin-1'), list(r['subpath']), r['qs'], truthy, ok])
-    return [cfg, reqs, _state['listing']]
+        reqs.append([r.get('inst', 0), r['path'].encode('latin-1'), list(r['subpath']), r['qs'], truthy, ok])
+    return [cfgs, reqs, _state['listing']]
 
 
 def from_wire(case, raw):
@@ -629,8 +727,11 @@ def run_impl(case):
         setup('quick')
     if _is_utf8(case):
         return _run_utf8(case)
-    kind, app = _get_app(case)               # a fresh view instance (empty filemap) per case
-    outs = [_run_one(kind, app, case['mount'], r) for r in _requests(case)]
+    apps = [_get_app(ic) for ic in _insts(case)]       # fresh view instances (empty filemaps) per case, one process
+    outs = []
+    for r in _requests(case):
+        kind, app = apps[r.get('inst', 0)]
+        outs.append(_run_one(kind, app, case['mount'], r))
     try:
         sec = _state['secure'](tuple(case['subpath']))
         sec = [] if sec is None else [sec]
@@ -644,7 +745,7 @@ def _root_real(case):
     is_pkg, spec, pname = ROOTS[case['root']]
     if is_pkg:
         rel = spec.split(':', 1)[1] if ':' in spec else spec
-        return os.path.normpath(os.path.join(BASE, PKG, rel))
+        return os.path.normpath(os.path.join(BASE, _root_pkg(case['root']), rel))
     return os.path.normpath(spec)
 
 
@@ -695,10 +796,12 @@ def _boundary(case, bad):
 
 
 def _judge_one(case, r, out, sp):
+    """Each request is judged against the root of the instance that served it."""
     resp, trace = out
-    bad = _escapes(case, resp, trace)
+    ic = _inst_of(case, r)
+    bad = _escapes(ic, resp, trace)
     if bad:
-        return None if _boundary(case, bad) else False
+        return None if _boundary(ic, bad) else False
     return _conforms(resp, sp[0])
 
 
@@ -742,7 +845,7 @@ def classify(case, obs, spec):
         if v is not False:
             continue
         resp, trace = o
-        if _escapes(case, resp, trace):
+        if _escapes(_inst_of(case, r), resp, trace):
             return None
         if case['mount'] == 'view' and _nonascii(r) and _state_facts.get('view_decodes_again') and (
                 resp[0] in (200, 404, 301) or resp in ([0, 1], [0, 3])):
@@ -812,6 +915,9 @@ def kinds(case, obs):
         k.append('encs-configured')
     k.append('trace-len-%d' % min(len(trace), 9))
     k.append('pre-%d' % len(case['pre']))
+    k.append('instances-%d' % (1 + len(case.get('insts', []))))
+    if case.get('insts') and any(q.get('inst', 0) != case.get('inst', 0) and q['path'] == case['path'] and q['subpath'] == case['subpath'] for q in case['pre']):
+        k.append('same-name-asked-of-another-instance-before')
     if case['pre'] and len(trace) <= 4 and r and r[0] == 200:
         k.append('filemap-hit')
     if case['mount'] == 'subpath':
@@ -827,7 +933,7 @@ def explain(item):
     if _is_utf8(item['case']):
         return {'note': 'Lib/Utf8.decode vs CPython (traversal.decode_path_info) on every sequence prefix + suffix of length n; '
                         'entries = [suffix, decoded text, re-encodes to the same bytes]'}
-    return {'request_path': item['case'].get('path'), 'earlier_requests': item['case'].get('pre'), 'mount': item['case'].get('mount'), 'root': item['case'].get('root'),
+    return {'request_path': item['case'].get('path'), 'earlier_requests': item['case'].get('pre'), 'other_instances': item['case'].get('insts'), 'mount': item['case'].get('mount'), 'root': item['case'].get('root'),
             'world': BASE, 'note': 'observation = [[response, ordered os.stat(0)/open(1) trace] per request, _secure_path(subpath)]'}
 
 
